@@ -306,7 +306,7 @@ import struct as _st
 class FG:
     """per-function generator"""
     def __init__(s, g, f):
-        s.g = g; s.f = f; s.m = g.m; s.vt = {}; s.out = []; s.tmp = 0; s.defs = {}
+        s.g = g; s.f = f; s.m = g.m; s.vt = {}; s.out = []; s.tmp = 0; s.defs = {}; s.allocas = set()
     def v(s, name): return 'v_' + mangle(name)
     def L(s, name): return 'L_' + mangle(name)
 
@@ -488,14 +488,22 @@ def instr(s, ins, decls):
         if p.eat(','):
             if p.peek() != 'align': ct, cnt = s.tv(p)
         nm = 'al_' + mangle(dst)
-        if cnt is None: decls[nm] = ty; s.emit('%s = &%s;' % (s.v(dst), nm))
+        if cnt is None: decls[nm] = ty; s.emit('%s = &%s;' % (s.v(dst), nm)); s.allocas.add(s.v(dst))
         else: s.emit('%s = (%s*)malloc(sizeof(%s) * %s);' % (s.v(dst), g.cty(ty), g.cty(ty), cnt))
         decls[s.v(dst)] = Ty('ptr', to=ty); return
     if op == 'load':
         ty = p.type(); p.expect(','); pt, pv = s.tv(p)
+        lv = s.split_access(pv, ty)
+        if lv:   # an integer load that covers several scalar fields of a typed aggregate (a small struct copied as one iN): read the fields
+            ct = g.cty(ty); g.stats['split_load'] += 1
+            setd(ty, '(%s)' % ' | '.join('((%s)((%s)%s%s) << %d)' % (ct, ct, lval, ' & 1' if lt.bits == 1 else '', 8 * a) for a, sz, lval, lt in lv)); return
         setd(ty, '*(%s)' % pv); return
     if op == 'store':
         ty, v = s.tv(p); p.expect(','); pt, pv = s.tv(p)
+        lv = s.split_access(pv, ty)
+        if lv:
+            g.stats['split_store'] += 1
+            s.emit('{ %s t_ = %s; %s }' % (g.cty(ty), v, ' '.join('%s = (%s)(t_ >> %d)%s;' % (lval, g.cty(lt), 8 * a, ' & 1' if lt.bits == 1 else '') for a, sz, lval, lt in lv))); return
         s.emit('*(%s) = %s;' % (pv, v)); return
     if op == 'getelementptr':
         bt = p.type(); p.expect(','); pt, base = s.tv(p); idx = []
@@ -796,6 +804,17 @@ def origin(s, v):
     return best
 
 @FGm
+def split_access(s, pv, ty):
+    """scalar leaves of the typed aggregate an iN load/store really touches, when it spans more than one of them"""
+    if os.environ.get('LL2C_NO_SPLIT') or ty.k != 'int' or ty.bits < 16 or ty.bits % 8 or ty.bits > 64: return None
+    org = s.origin(pv)
+    if org is None: return None
+    if s.resolve(org[1]).k not in ('struct', 'arr'): return None
+    lv = s.region_leaves(org, ty.bits // 8)
+    if not lv or len(lv) < 2 or any(lt.k != 'int' for _, _, _, lt in lv): return None
+    return lv
+
+@FGm
 def region_leaves(s, org, length):
     """leaves (reloff, size, lvalue, type) covering exactly [off, off+length) of the object(s) org points to, or None"""
     base, ty, off = org
@@ -819,8 +838,19 @@ def leafkind(t):
 @FGm
 def typed_memset(s, d, val, n):
     if os.environ.get('LL2C_NO_TYPEDMEM') or os.environ.get('LL2C_NO_TYPEDSET'): return None
+    nexpr = n
     n = constval(n); val = constval(val)
     org = s.origin(d)
+    if n is None and val is not None and org is not None and org[0] in s.allocas and s.resolve(org[1]).k == 'arr' and not os.environ.get('LL2C_NO_VARSET'):
+        # variable length over a small typed object of uniform scalars (a loop clang turned into memset): guarded scalar stores, no bytes
+        tot = s.g.size_align(org[1])[0] - org[2]
+        lv = s.region_leaves(org, tot) if 0 < tot <= 512 else None
+        if lv and len({sz for _, sz, _, _ in lv}) == 1 and all(a == i * lv[0][1] for i, (a, _, _, _) in enumerate(lv)) and all(lt.k == 'int' or val == 0 for _, _, _, lt in lv):
+            sz = lv[0][1]
+            def cv(lt): return '(%s)%dUL' % (s.g.cty(lt), int.from_bytes(bytes([val]) * sz, 'little') & ((1 << lt.bits) - 1)) if lt.k == 'int' else '(%s)0' % s.g.cty(lt)
+            s.g.stats['mem_typed_varset'] += 1
+            return '{ unsigned long n_ = %s; RT_ASSERT(n_ <= %dUL && n_ %% %dUL == 0, "memset length stays within the typed object and is a multiple of its scalar size"); %s }' % (
+                nexpr, tot, sz, ' '.join('if (n_ >= %dUL) %s = %s;' % (a + sz, lval, cv(lt)) for a, _, lval, lt in lv))
     if n is None or val is None or org is None: return None
     lv = s.region_leaves(org, n)
     if lv is None: return None
